@@ -118,11 +118,28 @@ m("C14","zero-area-tolerance","xy/area_centroid.go","	if math.Abs(calc.areasum2)
 m("C11","second-crossing-site","xy/internal/raycrossing/ray-crossing-counter.go","	// check if the point is equal to the current ring vertex","	if p1[0] > counter.p[0] && p2[0] > counter.p[0] && (p1[1] >= counter.p[1]) != (p2[1] >= counter.p[1]) {\n		counter.crossingCount++\n		return\n	}\n\n	// check if the point is equal to the current ring vertex","crossing-convention")
 m("C08","newbounds-one-array","bounds.go","	minValue, maxValue := make(Coord, stride), make(Coord, stride)","	both := make(Coord, 2*stride)\n	minValue, maxValue := both[:stride], both[stride:]","min-max-distinct-storage/geom.NewBounds")
 
+# ---- C12
+R="xy/lineintersector/robust_line_intersector.go"
+m("C12","same-side-nonstrict",R,"(line1StartToLine2Orientation < 0 && line1EndToLine2Orientation < 0)","(line1StartToLine2Orientation <= 0 && line1EndToLine2Orientation <= 0)","orientation-case-analysis/")
+m("C12","second-pair-test-dropped",R,"	if (line1StartToLine2Orientation > orientation.Collinear && line1EndToLine2Orientation > orientation.Collinear) || (line1StartToLine2Orientation < 0 && line1EndToLine2Orientation < 0) {\n		data.intersectionType = lineintersection.NoIntersection\n		return\n	}\n","","orientation-case-analysis/")
+m("C12","orientation-wrong-base",R,"	line1EndToLine2Orientation := bigxy.OrientationIndex(line2Start, line2End, line1End)","	line1EndToLine2Orientation := bigxy.OrientationIndex(line2Start, line1Start, line1End)","orientation-case-analysis/")
+m("C12","copies-other-endpoint",R,"		case line2StartToLine1Orientation == orientation.Collinear:\n			// Now check to see if any endpoint lies on the interior of the other segment.\n			copy(data.intersectionPoints[0], line2Start)","		case line2StartToLine1Orientation == orientation.Collinear:\n			// Now check to see if any endpoint lies on the interior of the other segment.\n			copy(data.intersectionPoints[0], line2End)","endpoint-copied/")
+m("C12","endpoint-computed-not-copied",R,"		case line1EndToLine2Orientation == orientation.Collinear:\n			copy(data.intersectionPoints[0], line1End)","		case line1EndToLine2Orientation == orientation.Collinear:\n			data.intersectionPoints[0] = intersection(data, line1Start, line1End, line2Start, line2End)","endpoint-copied/")
+m("C12","collinear-wrong-endpoint",R,"	if line2StartWithinLine1Bounds && line1EndWithinLine2Bounds {\n		data.intersectionPoints[0] = line2Start\n		data.intersectionPoints[1] = line1End","	if line2StartWithinLine1Bounds && line1EndWithinLine2Bounds {\n		data.intersectionPoints[0] = line2Start\n		data.intersectionPoints[1] = line1Start","collinear-overlap-table/")
+m("C12","collinear-touch-is-segment",R,"	if internal.Equal(lineStart, 0, lineEnd, 0) && !intersection1 && !intersection2 {","	if internal.Equal(lineStart, 0, lineEnd, 0) && !intersection1 && intersection2 {","collinear-overlap-table/")
+m("C12","collinear-containment-order",R,"	if line1StartWithinLine2Bounds && line1EndWithinLine2Bounds {\n		data.intersectionPoints[0] = line1Start\n		data.intersectionPoints[1] = line1End\n		return lineintersection.CollinearIntersection\n	}\n","","collinear-overlap-table/")
+m("C12","envelope-check-dropped",R,"	if !isInSegmentEnvelopes(data, intPt) {\n		intPt = centralendpoint.GetIntersection(line1Start, line1End, line2Start, line2End)\n	}","","crossing-point-enveloped/")
+m("C12","envelope-one-segment-only",R,"	return intersection1 && intersection2","	return intersection1 || intersection2","crossing-point-enveloped/")
+m("C12","fallback-first-endpoint",R,"		intPt = centralendpoint.GetIntersection(line1Start, line1End, line2Start, line2End)\n	}\n\n	// TODO","		intPt = line1Start\n	}\n\n	// TODO","crossing-point-enveloped/")
+m("C12","collinear-result-one-point","xy/lineintersector/line_intersector.go","		intersections = intersectorData.intersectionPoints[:2]","		intersections = intersectorData.intersectionPoints[:1]","result-arity/")
+m("C12","inputlines-same-segment-twice","xy/lineintersector/line_intersector.go","		inputLines:         [2][2]geom.Coord{{line2Start, line2End}, {line1Start, line1End}},\n		intersectionPoints: [2]geom.Coord{{0, 0}, {0, 0}},\n	}\n\n	intersectorData.pa = intersectorData.intersectionPoints[0]\n	intersectorData.pb = intersectorData.intersectionPoints[1]\n\n	strategy.computeLineOnLineIntersection","		inputLines:         [2][2]geom.Coord{{line2Start, line2End}, {line2Start, line2End}},\n		intersectionPoints: [2]geom.Coord{{0, 0}, {0, 0}},\n	}\n\n	intersectorData.pa = intersectorData.intersectionPoints[0]\n	intersectorData.pb = intersectorData.intersectionPoints[1]\n\n	strategy.computeLineOnLineIntersection","input-lines-recorded/")
+m("C12","hcoords-y-from-z","xy/internal/hcoords/hcoords.go","	line2W := line2End1[0]*line2End2[1] - line2End2[0]*line2End1[1]","	line2W := line2End1[0]*line2End2[1] - line2End2[0]*line2End1[2]","stride-discipline/")
+
 def main():
     root = "/verif/mutants"
     import glob
     for f in glob.glob(root + "/*/*"):
-        if not os.path.basename(f).startswith("seed-"):
+        if not os.path.basename(f).startswith(("seed-", "neutral-")):
             os.remove(f)
     scratch = tempfile.mkdtemp(prefix="mkmut.")
     try:
